@@ -6,8 +6,8 @@ CONSTANTS
   Shapes = {"", "H", "L", "C", "HC", "LC"}
   Mod = 1
   NCalls = 12
-  NProg = 1
-  Sample = FALSE
+  NProg = 5
+  Sample = TRUE
   Wide = TRUE
   Dump = TRUE
 INVARIANT NoDangling
